@@ -1,4 +1,83 @@
-(* C11 — property theorems (statements only; proofs live in Proofs.v). *)
+(* C11 — property theorems (statements only; proofs live in Proofs.v; vocabulary in Spec.v / Model.v). *)
 From Coq Require Import List NArith Bool.
-Require Import QV.C11.Model QV.C11.Proofs.
+Require Import QV.C11.Model QV.C11.Spec QV.C11.Proofs.
 Import ListNotations.
+Open Scope N_scope.
+
+(* Crash safety of store / overwrite / delete, for every variant of the code whose backend replaces documents
+   atomically, every storage only modified through PulseStorage, every cache content, every in-scope operation and
+   every crash position k (k >= number of steps = the completed operation):
+     (a) the archive exists, every listed document is complete and every identifier it refers to is listed,
+     (b) every identifier holds its old content or the content of the completed operation,
+     (c) as long as no publishing primitive ran, the storage is unchanged.
+   `_partial`: (a) is closedness, not recursive loadability (see C11_cycle_refuted / C11_crash_safe_statement). *)
+Theorem C11_crash_safe_partial : forall v b d c o k,
+  safe v b = true -> wf d c -> op_in_scope d o ->
+  let steps := steps_of (plan_of v b d c o) in
+  let d' := run (firstn k steps) d in
+  (exists s', main d' = Some s' /\ closed s') /\
+  (forall i, lookup i (view d') = lookup i (view d) \/ lookup i (view d') = lookup i (view (run steps d))) /\
+  (no_publish (firstn k steps) = true -> main d' = main d).
+Proof. exact crash_safe. Qed.
+Print Assumptions C11_crash_safe_partial.
+
+(* the model variant that the correspondence check ties to /repo replaces atomically in all three backends *)
+Theorem C11_current_code_safe : forall b, safe current b = true.
+Proof. intros []; reflexivity. Qed.
+Print Assumptions C11_current_code_safe.
+
+(* un-serializable nested object / identifier clash / missing key: no primitive is performed *)
+Theorem C11_error_before_write : forall v b d c o e,
+  plan_of v b d c o = PErr e -> steps_of (plan_of v b d c o) = [].
+Proof. exact error_before_write. Qed.
+Print Assumptions C11_error_before_write.
+
+(* the transaction buffer is duplicate-free and ordered children-before-parents (any backend) *)
+Theorem C11_children_before_parents : forall (s : store) (c : cache) n tx,
+  (forall i, has i c = true -> In i (keys s)) -> consistentb n = true ->
+  collect (keys s) c n [] = Ok tx ->
+  NoDup (keys tx) /\ ordered (keys s) (proj tx).
+Proof. exact children_before_parents. Qed.
+Print Assumptions C11_children_before_parents.
+
+(* why the repairs (repo commit 61710b6) were needed: the pinned snapshot violates the statement *)
+Theorem C11_snapshot_fs_refuted :
+  exists d c o k, wf d c /\ op_in_scope d o /\
+    ~ (exists s', main (run (firstn k (steps_of (plan_of snapshot BFs d c o))) d) = Some s' /\ closed s').
+Proof. exact snapshot_fs_unsafe_a. Qed.
+Print Assumptions C11_snapshot_fs_refuted.
+
+Theorem C11_snapshot_zip_refuted :
+  exists d c o k, wf d c /\ op_in_scope d o /\
+    ~ (exists s', main (run (firstn k (steps_of (plan_of snapshot BZip d c o))) d) = Some s' /\ closed s').
+Proof. exact snapshot_zip_unsafe_a. Qed.
+Print Assumptions C11_snapshot_zip_refuted.
+
+(* known finding dup-id-in-transaction: without guard_C11_dup_id (= op_in_scope for stores) clause (a) fails *)
+Theorem C11_dup_id_refuted :
+  exists b d c o k, safe current b = true /\ wf d c /\
+    ~ (exists s', main (run (firstn k (steps_of (plan_of current b d c o))) d) = Some s' /\ closed s').
+Proof. exact dup_id_unsafe_a. Qed.
+Print Assumptions C11_dup_id_refuted.
+
+(* known finding overwrite-creates-cycle: closedness does not give loadability; a stale cached object lets a
+   completed overwrite build a reference cycle *)
+Theorem C11_cycle_refuted :
+  exists d c o, wf d c /\ all_load (view d) /\ op_in_scope d o /\
+     exists i, lookup i (view (run (steps_of (plan_of current BDict d c o)) d)) <> None /\
+               ~ loads (view (run (steps_of (plan_of current BDict d c o)) d)) i.
+Proof. exact cycle_unsafe. Qed.
+Print Assumptions C11_cycle_refuted.
+
+(* the full-strength statement (open): with both guards every listed identifier loads after every crash prefix *)
+Definition C11_crash_safe_statement : Prop := forall v b d c o k,
+  safe v b = true -> wf d c -> all_load (view d) -> op_in_scope d o -> guard_C11_cycle d c o = true ->
+  all_load (view (run (firstn k (steps_of (plan_of v b d c o))) d)).
+
+(* the hypotheses (and both guards) are satisfiable by a non-trivial input on every backend *)
+Theorem C11_hypotheses_satisfiable :
+  forall b, safe current b = true /\ wf (disk_of ex_store) ex_cache /\ op_in_scope (disk_of ex_store) (OOverwrite ex_tmpl)
+            /\ (3 <= length (steps_of (plan_of current b (disk_of ex_store) ex_cache (OOverwrite ex_tmpl))))%nat
+            /\ guard_C11_cycle (disk_of ex_store) ex_cache (OOverwrite ex_tmpl) = true.
+Proof. exact hypotheses_satisfiable. Qed.
+Print Assumptions C11_hypotheses_satisfiable.
